@@ -100,13 +100,17 @@ class World(object):
     def alias_dir(self):
         link = os.path.join(self._links_dir(), "project")
         if not os.path.islink(link):
-            os.symlink(self.root, link)
+            _orig.get("symlink", os.symlink)(self.root, link)  # (the user's doing, not an event of the simulated process)
         return link
 
     def alias_file(self, rel):
         link = os.path.join(self._links_dir(), "link_" + rel.replace(os.sep, "_"))
         if not os.path.islink(link):
-            os.symlink(self.path(rel), link)
+            if os.path.lexists(link):
+                # an earlier operation replaced the user's link by a regular file (what it wrote is in that file, the
+                # project file behind the link was not touched: the oracles see that); the user restores the link
+                _orig["remove"](link)
+            _orig.get("symlink", os.symlink)(self.path(rel), link)
         return link
 
     def rel(self, p):
@@ -137,7 +141,7 @@ class World(object):
         """Give the file a second name (a hard link), as a backup tool or a vendoring script would."""
         src, dst = self.path(rel), self.path(rel + suffix)
         if os.path.isfile(src) and not os.path.exists(dst):
-            os.link(src, dst)
+            _orig.get("link", os.link)(src, dst)
             if not hasattr(self, "hardlinks"):
                 self.hardlinks = {}
             self.hardlinks[rel] = rel + suffix
@@ -148,7 +152,7 @@ class World(object):
         for a, b in sorted(getattr(self, "hardlinks", {}).items()):
             if a in snap and b in snap and snap[a] == snap[b]:
                 _orig["remove"](self.path(b))
-                os.link(self.path(a), self.path(b))
+                _orig.get("link", os.link)(self.path(a), self.path(b))
 
     def _restore(self, snap):
         for name in os.listdir(self.root):
